@@ -330,3 +330,15 @@ def r9_10(run):
 
 
 RULES = [("R9.1", r9_1), ("R9.2", r9_2), ("R9.3", r9_3), ("R9.4", r9_4), ("R9.5", r9_5), ("R9.6", r9_6), ("R9.7", r9_7), ("R9.8", r9_8), ("R9.9", r9_9), ("R9.10", r9_10)]
+
+
+def r9_11(run):
+    """out of service = absent also inside the Newton loop: the hooks that work on the reduced pit take per-element data from the pit or
+    from the component array (which is reduced by the same active lookup), never from a column of the element table, whose rows still
+    include the elements that are not calculated -- shared with C04 R4.8 (the i-th active pump would be evaluated with the curve of
+    the i-th table row)."""
+    from .c04 import r4_8
+    r4_8(run)
+
+
+RULES.append(("R9.11", r9_11))
